@@ -39,6 +39,11 @@ class CallMixin:
         for a in node.args:
             if isinstance(a, ast.Starred):
                 v = self.ev(a.value, st)
+                if isinstance(v, VList) and v.elems is not None and not isinstance(v.length, int) and isinstance(f, VConc):
+                    # f(*L) with L a list of symbolic length, f a third-party callable: the argument list itself is handed
+                    # to the sidecar's assumed contract of f (which must understand VStarArgs, else it rejects the call)
+                    args.append(VStarArgs(v))
+                    continue
                 if not isinstance(v, VTuple):
                     raise Unsupported("star-args of a non-tuple")
                 args += v.items
@@ -468,6 +473,12 @@ class CallMixin:
             ks = key_terms(args[0])
             dflt = args[1] if len(args) > 1 else None
             return self.merge(sel(D.dom, *ks), sel(D.vals, *ks), dflt)
+        ext = self.externals.get("dict." + name)
+        if ext is not None and not getattr(self, "binders", ()):
+            # a dict method given by an assumed contract of the sidecar (trusted base, listed like any other external);
+            # a mutating one stores the new dict value back through the receiver's access path itself (node.func.value)
+            self.used_externals.add("dict." + name)
+            return ext(self, [D] + list(args), {}, node, st)
         raise Unsupported(f"dict.{name}")
 
     def conc_dict_get(self, obj, key, default, node):
@@ -567,6 +578,8 @@ class CallMixin:
             return max(n, 0) if isinstance(n, int) else z3.If(n > 0, n, z3.IntVal(0))
         if isinstance(v, VDict) and v.order is not None:
             return v.order.length
+        if isinstance(v, VSet) and getattr(self.sidecar, "SET_CARD_FUNCTION", False) and v.kshape == ("int",):
+            return self.set_card_fn(v)
         if isinstance(v, VSet) and not getattr(self, "binders", ()):
             # cardinality of a (finite) set = length of a duplicate-free enumeration of exactly its members
             return self.set_enumeration(v, st).length
@@ -580,6 +593,17 @@ class CallMixin:
         if key not in cache:
             cache[key] = (z3.Int(uid("card")), S.mem)
         return cache[key][0]
+
+    def set_card_fn(self, S):
+        """len(S) of a set of integers as an uninterpreted function `set.card` of the set value (opt-in of the sidecar:
+        SET_CARD_FUNCTION; usable under comprehension / map binders, where a per-call unknown would be wrong).  Only what
+        holds of every len() is assumed: it is not negative; sidecars add what else they need as listed lemmas."""
+        new = "set.card" not in self.ufuns
+        f = self.ufun("set.card", z3.ArraySort(z3.IntSort(), z3.BoolSort()), z3.IntSort())
+        if new:
+            a = z3.Const("set.card!S", z3.ArraySort(z3.IntSort(), z3.BoolSort()))
+            self.global_facts.append(z3.ForAll([a], f(a) >= 0, patterns=[f(a)]))
+        return f(S.mem)
 
     def set_enumeration(self, S, st):
         """a fresh duplicate-free list of exactly the members of S, in an arbitrary (unknown) order"""
@@ -835,6 +859,8 @@ class CallMixin:
         conc = self.conc_iter(it)
         if conc is not None:
             return self.list_literal([self.call_value(f, [x], {}, node, st) for x in conc])
+        if isinstance(it, VDictView) and it.which == "values" and it.d.order is not None:
+            it = self.bi_list([it], {}, node, st)  # map over dict.values(): the values in insertion order of their keys
         if isinstance(it, VList):
             q = z3.Int(uid("q"))
             self.guard.append(z3.And(q >= 0, q < to_z3(it.length)))
@@ -874,6 +900,11 @@ class CallMixin:
         raise Unsupported("dict()")
 
     def bi_frozenset(self, args, kw, node, st):
+        ext = self.externals.get("builtins.frozenset")
+        if ext is not None:
+            # frozenset() given by an assumed contract of the sidecar (trusted base, listed like any other external)
+            self.used_externals.add("builtins.frozenset")
+            return ext(self, args, kw, node, st)
         raise Unsupported("frozenset()")
 
     def bi_round(self, args, kw, node, st):
@@ -887,6 +918,13 @@ class VDictView:
 
 class VEmptySet:
     pass
+
+
+class VStarArgs:
+    """f(*L) for a list L of symbolic length: stands for the len(L) positional arguments L[0], L[1], ... (externals only)"""
+
+    def __init__(self, lst):
+        self.lst = lst
 
 
 class BoxTarget:
